@@ -7,12 +7,26 @@ from ..spec import document as D
 from ..mon.client import call
 from ..mon import hooks
 
+import os
+import shutil
+import tempfile
+
 ID = "C04"
 MAXLEN = {"quick": 3, "thorough": 4}
+ENTRIES = ["list", "list", "str", "file"]
+EXOTIC = ["\x0b", "\x0c", "\x1c", "\x1d", "\x1e", "\x85", "\u2028", "\u2029"]
+_tmp = None
 
 
 def setup(ctx):
+    global _tmp
     hooks.RATE = 50
+    _tmp = tempfile.mkdtemp(prefix="verif-c04-")
+
+
+def finish(ctx):
+    if _tmp:
+        shutil.rmtree(_tmp, ignore_errors=True)
 
 
 def cases(rng, tier, shard, nshards):
@@ -37,14 +51,31 @@ def cases(rng, tier, shard, nshards):
         if r < 0.25:
             d = G.gen_doc(rng, canonical=rng.random() < 0.5)
             yield {"k": "doc", "lines": d.lines(), "version": rng.choice([None, d.version]),
-                   "vlevel": rng.choice([1, 2, 3]), "dialect": "standard"}
+                   "vlevel": rng.choice([1, 2, 3]), "dialect": "standard", "entry": rng.choice(ENTRIES)}
         elif r < 0.5:
             d = G.gen_doc(rng, canonical=rng.random() < 0.5)
             lines = d.lines()
             i = rng.randrange(len(lines))
-            lines[i] = HG.mutate_line(rng, lines[i])
+            entry = rng.choice(ENTRIES)
+            if rng.random() < 0.2:
+                # characters which some line splitters take for line ends (VT, FF, FS, GS, RS, NEL,
+                # LS, PS): in GFA only LF / CRLF end a line -- inside a field they are invalid
+                # characters, between two records they do not separate them
+                ch = rng.choice(EXOTIC)
+                if rng.random() < 0.5 and len(lines) > 1:
+                    i = rng.randrange(len(lines) - 1)
+                    lines[i:i + 2] = [lines[i] + ch + lines[i + 1]]
+                else:
+                    f = lines[i].split("\t")
+                    k = rng.randrange(1 if len(f) > 1 else 0, len(f))
+                    pos = rng.choice([0, len(f[k]), len(f[k]) // 2])
+                    f[k] = f[k][:pos] + ch + f[k][pos:]
+                    lines[i] = "\t".join(f)
+                entry = rng.choice(["file", "file", "str"])
+            else:
+                lines[i] = HG.mutate_line(rng, lines[i])
             yield {"k": "doc", "lines": lines, "version": rng.choice([None, d.version]),
-                   "vlevel": rng.choice([1, 2, 3]), "dialect": "standard"}
+                   "vlevel": rng.choice([1, 2, 3]), "dialect": "standard", "entry": entry}
         elif r < 0.62:
             yield {"k": "doc", "lines": cross_field_doc(rng), "version": None, "vlevel": rng.choice([1, 2, 3]),
                    "dialect": "standard"}
@@ -215,8 +246,24 @@ def run(case, ctx):
     kw = {"vlevel": vlevel, "dialect": dialect}
     if version:
         kw["version"] = version
-    r = call(ctx, "Gfa(list)", gfapy.Gfa, list(lines), **kw)
+    entry = case.get("entry", "list")
+    if entry in ("str", "file") and any("\n" in l or "\r" in l for l in lines):
+        entry = "list"          # (the text would denote other lines)
+    if entry == "str":
+        r = call(ctx, "Gfa(str)", gfapy.Gfa, "\n".join(lines), **kw)
+    elif entry == "file":
+        fn = os.path.join(_tmp, "doc.gfa")
+        try:
+            with open(fn, "w", encoding="utf8", newline="") as f:
+                f.write("\n".join(lines) + "\n")
+            r = call(ctx, "Gfa.from_file", gfapy.Gfa.from_file, fn, **kw)
+        except UnicodeEncodeError:
+            r = call(ctx, "Gfa(list)", gfapy.Gfa, list(lines), **kw)
+            entry = "list"
+    else:
+        r = call(ctx, "Gfa(list)", gfapy.Gfa, list(lines), **kw)
     ctx.count("docs_judged")
+    ctx.count("docs_entry:" + entry)
     ctx.count("verdict:" + verdict[0])
     constructed = r.ok
     validated = None
@@ -235,7 +282,7 @@ def run(case, ctx):
                     break
     reason = (verdict[1] or "").split(":")[0]
     judge(ctx, verdict, constructed, validated, "document %r (version=%s, dialect=%s, vlevel=%d)"
-          % (lines, version, dialect, vlevel), "doc", r, v)
+          % (lines, version, dialect, vlevel), "doc" if entry == "list" else "doc-" + entry, r, v)
     if verdict[0] != S.UNSPEC:
         ctx.nontriv(case)
     ctx.add("doc_reasons", "%s:%s" % (verdict[0], reason))
